@@ -21,6 +21,7 @@ import (
 	"sort"
 	"strconv"
 	"strings"
+	"sync"
 	"time"
 
 	"github.com/BondMachineHQ/BondMachine/pkg/bondmachine"
@@ -246,29 +247,56 @@ func runC10(r *evid.Run) {
 	defer os.RemoveAll(scratch)
 
 	// ---- 1. exhaustive TLC on the implementation-level model + refinement ------------------
-	cfg := "MCTopology_quick.cfg"
+	cfgs := []string{"MCTopology_a.cfg", "MCTopology_b.cfg"}
 	if r.Thorough() {
-		cfg = "MCTopology_thorough.cfg"
+		cfgs = append(cfgs, "MCTopology_c.cfg", "MCTopology_d.cfg")
 	}
-	res, err := tlc.Run(tlc.Options{SpecDir: specDir, Module: "MCTopology", Cfg: cfg, Workers: 8, DumpDot: true,
-		Scratch: filepath.Join(scratch, "mc"), KeepDir: true, Timeout: 20 * time.Minute})
-	if err != nil {
-		r.Inconclusive("tlc: %v", err)
-		return
+	type mcOut struct {
+		res *tlc.Result
+		err error
 	}
-	if !res.OK() {
-		r.Inconclusive("TLC did not accept BMTopology (%s %s): the model itself is inconsistent; no verdict about the code\n%s", res.Violation, res.ViolationName, res.Error)
-		return
+	outs := make([]mcOut, len(cfgs))
+	var wg sync.WaitGroup
+	for i, cfg := range cfgs {
+		wg.Add(1)
+		go func(i int, cfg string) {
+			defer wg.Done()
+			res, err := tlc.Run(tlc.Options{SpecDir: specDir, Module: "MCTopology", Cfg: cfg, Workers: 16 / len(cfgs), DumpDot: true,
+				Scratch: filepath.Join(scratch, "mc"+strconv.Itoa(i)), KeepDir: true, Timeout: 40 * time.Minute})
+			outs[i] = mcOut{res, err}
+		}(i, cfg)
 	}
-	r.Set("states", res.Distinct)
-	r.Set("tlc_generated", res.Generated)
-	r.Set("tlc_depth", res.Depth)
-	r.Set("model_cfg", cfg)
-	g, err := tlc.ParseDot(res.DotPath)
-	if err != nil {
-		r.Inconclusive("dot: %v", err)
-		return
+	wg.Wait()
+	g := &tlc.Graph{Nodes: map[string]map[string]tlaval.Value{}}
+	var states, generated int64
+	for i, o := range outs {
+		if o.err != nil {
+			r.Inconclusive("tlc %s: %v", cfgs[i], o.err)
+			return
+		}
+		if !o.res.OK() {
+			r.Inconclusive("TLC did not accept BMTopology under %s (%s %s): the model itself is inconsistent; no verdict about the code\n%s", cfgs[i], o.res.Violation, o.res.ViolationName, o.res.Error)
+			return
+		}
+		gi, err := tlc.ParseDot(o.res.DotPath)
+		if err != nil {
+			r.Inconclusive("dot: %v", err)
+			return
+		}
+		pfx := strconv.Itoa(i) + ":"
+		for id, n := range gi.Nodes {
+			g.Nodes[pfx+id] = n
+		}
+		for _, e := range gi.Edges {
+			g.Edges = append(g.Edges, tlc.Edge{From: pfx + e.From, To: pfx + e.To, Action: e.Action})
+		}
+		states += o.res.Distinct
+		generated += o.res.Generated
+		os.RemoveAll(o.res.Dir)
 	}
+	r.Set("states", states)
+	r.Set("tlc_generated", generated)
+	r.Set("model_cfgs", cfgs)
 	r.Set("transitions", int64(len(g.Edges)))
 
 	// ---- 2. replay every transition on the real object ---------------------------------------
